@@ -665,3 +665,38 @@ Inductive delivery_latest (reqs : list req) : nat -> list req -> nat -> Prop :=
 | dv_dup m k q d m' : (k < m)%nat -> nth_error reqs k = Some q ->
     (forall j q', (k < j < m)%nat -> nth_error reqs j = Some q' -> cp_key (q_cp q') <> cp_key (q_cp q)) ->
     delivery_latest reqs m d m' -> delivery_latest reqs m (q :: d) m'.
+
+(* ---------- SyncSender.HandleEvent as the steps it consists of, run by concurrent handlers ----------
+   The event bus starts every handler call in its own goroutine (pkg/events/local/bus.go: go h(req.event)).
+   /repo HEAD (f_race): (1) seqCounter.Add(1); (2) sessionToCheckpoint, backlog.Push; (3) sendCh <- req — a handler can be
+   preempted after (1).  Repaired (fixes/C11_sender_atomic.patch): the checkpoint is built first, then number, push and
+   enqueue happen under one mutex.  [SStart] runs a handler up to the point where it can be preempted, [SFinish]
+   lets it run to completion. *)
+Record sstate := mkss {
+  ss_seq : N; ss_ring : ring; ss_chan : list req;
+  ss_pend : list (N * (option N * (session * bool))) }.
+Inductive sop := SStart (i : N) (s : session) (rel : bool) | SFinish (i : N).
+Definition ss_init (cap : Z) : sstate := mkss 0 (new_ring cap) [] [].
+Definition ss_step (fl : flags) (g : N) (st : sstate) (o : sop) : sstate :=
+  match o with
+  | SStart i s rel =>
+      if f_race fl
+      then let sq := n64z (ss_seq st + 1) in
+           mkss sq (ss_ring st) (ss_chan st) (aset N.eqb i (Some sq, (s, rel)) (ss_pend st))
+      else mkss (ss_seq st) (ss_ring st) (ss_chan st) (aset N.eqb i (None, (s, rel)) (ss_pend st))
+  | SFinish i =>
+      match aget N.eqb i (ss_pend st) with
+      | None => st
+      | Some (osq, (s, rel)) =>
+          let sq := match osq with Some x => x | None => n64z (ss_seq st + 1) end in
+          let q := mkreq g sq (if rel then ADelete else AUpdate) (s2c s) in
+          mkss (match osq with Some _ => ss_seq st | None => sq end) (push (ss_ring st) q) (ss_chan st ++ [q])
+               (adel N.eqb i (ss_pend st))
+      end
+  end.
+Definition ss_run (fl : flags) (g : N) (cap : Z) (ops : list sop) : sstate :=
+  fold_left (ss_step fl g) ops (ss_init cap).
+(* the retained entries in ring order, oldest slot first *)
+Definition ring_list (b : ring) : list (option req) :=
+  map (fun j => match nth_error (r_entries b) ((oldest_idx b + j) mod r_cap b) with Some e => e | None => None end)
+      (seq 0 (r_size b)).
